@@ -56,11 +56,17 @@ Fund == [recips |-> Recips(PlainAmts, <<FALSE, FALSE, TRUE>>), feerate |-> Pick(
 Simple == [recips |-> [i \in 1..Pick(<<1, 1, 2>>) |-> [to |-> Pick(<<"ext_bech32", "ext_legacy", "faucet", "faucet", "self_bech32", "ext_bech32m">>), amt |-> Pick(<< <<"pct", 5>>, <<"pct", 20>>, <<"pct", 40>>, <<"abs", 20000>> >>), sffo |-> Pick(<<FALSE, FALSE, FALSE, TRUE>>)]],
            feerate |-> Pick(<<-1, 1000, 3333, 10000, 25000, 60000>>), override |-> FALSE, preset |-> <<>>, ext |-> 0, other |-> TRUE, unsafe |-> FALSE,
            mindepth |-> 0, changetype |-> Pick(<<"", "", "legacy", "bech32m">>), changedest |-> FALSE, changepos |-> -1, via |-> "create", commit |-> TRUE, lockunspents |-> FALSE]
-CreateArgs == LET t == IF BumpOn THEN Pick(<<"simple", "simple", "simple", "plain", "sweep", "fund">>) ELSE Pick(<<"plain", "plain", "plain", "sweep", "sweep", "fund">>) IN
-              IF t = "plain" THEN Plain ELSE IF t = "sweep" THEN Sweep ELSE IF t = "simple" THEN Simple ELSE Fund
+\* a payment with an input of somebody else (only ever bumped with require_mine off)
+Foreign == [recips |-> <<[to |-> Pick(<<"ext_bech32", "faucet">>), amt |-> Pick(<< <<"abs", 20000>>, <<"abs", 700000>> >>), sffo |-> FALSE]>>, feerate |-> Pick(<<1000, 3333, 10000>>),
+            override |-> FALSE, preset |-> <<>>, ext |-> 1, other |-> TRUE, unsafe |-> FALSE, mindepth |-> 0, changetype |-> "", changedest |-> FALSE, changepos |-> -1,
+            via |-> "fund", commit |-> TRUE, lockunspents |-> FALSE]
+CreateArgs == LET t == IF BumpOn THEN Pick(<<"simple", "simple", "simple", "simple", "foreign", "plain", "sweep", "fund">>) ELSE Pick(<<"plain", "plain", "plain", "sweep", "sweep", "fund">>) IN
+              IF t = "plain" THEN Plain ELSE IF t = "sweep" THEN Sweep ELSE IF t = "simple" THEN Simple ELSE IF t = "foreign" THEN Foreign ELSE Fund
 \* fee bumps (C56): feerate none / relative to the original's (sat/kvB above it) / absolute; new outputs; recycle the change
-BumpArgs == [tx |-> RandomElement(1..ncommit), feerate |-> Pick(<< <<"none", 0>>, <<"none", 0>>, <<"rel", 50>>, <<"rel", 99>>, <<"rel", 100>>, <<"rel", 101>>, <<"rel", 2000>>, <<"rel", 20000>>, <<"abs", 100>>, <<"abs", 5000000>> >>),
-             outputs |-> Pick(<<"", "", "", "half", "other">>), changeidx |-> Pick(<<FALSE, FALSE, TRUE>>), requiremine |-> Pick(<<TRUE, TRUE, FALSE>>),
+\* mostly the latest committed transaction (the earlier ones tend to be replaced or mined by then)
+BumpArgs == [tx |-> Pick(<<ncommit, ncommit, RandomElement(1..ncommit)>>),
+             feerate |-> Pick(<< <<"none", 0>>, <<"none", 0>>, <<"rel", 50>>, <<"rel", 50>>, <<"rel", 99>>, <<"rel", 99>>, <<"rel", 101>>, <<"rel", 150>>, <<"rel", 2000>>, <<"rel", 20000>>, <<"abs", 100>>, <<"abs", 5000000>> >>),
+             outputs |-> Pick(<<"", "", "", "", "half", "other">>), changeidx |-> Pick(<<FALSE, FALSE, TRUE>>), requiremine |-> Pick(<<TRUE, TRUE, FALSE>>),
              commit |-> Pick(<<TRUE, TRUE, FALSE>>)]
 
 Init == /\ phase = "wallet" /\ coins = <<>> /\ n = 0 /\ ncommit = 0
@@ -88,7 +94,10 @@ Bump == /\ Running /\ BumpOn /\ ncommit > 0
 \* the recipient (the others' key) spends what transaction k paid him, unconfirmed: a descendant that is not the wallet's
 SpendRecipient == /\ Running /\ BumpOn /\ ncommit > 0
                   /\ lastAct' = <<"respend", RandomElement(1..ncommit)>> /\ n' = n + 1 /\ UNCHANGED <<phase, wopts, coins, ncommit, lastRes>>
-Next == SetWallet \/ AddCoin \/ AddCoin \/ Start \/ Lock \/ Mine \/ Create \/ Create \/ Create \/ Bump \/ Bump \/ Bump \/ Bump \/ Bump \/ SpendRecipient
+\* the wallet itself spends the change of transaction k: a descendant in the wallet
+SpendChange == /\ Running /\ BumpOn /\ ncommit > 0
+               /\ lastAct' = <<"childof", Pick(<<ncommit, RandomElement(1..ncommit)>>), Pick(<<TRUE, FALSE>>)>> /\ n' = n + 1 /\ UNCHANGED <<phase, wopts, coins, ncommit, lastRes>>
+Next == SetWallet \/ AddCoin \/ AddCoin \/ Start \/ Lock \/ Mine \/ Create \/ Create \/ Create \/ Bump \/ Bump \/ Bump \/ Bump \/ Bump \/ Bump \/ SpendRecipient \/ SpendChange
 
 \* what the driver reads: the action; the state only tells the transitions apart
 View == <<phase, wopts, coins, n, ncommit>>
@@ -99,5 +108,6 @@ Emit == VF!VFEdge(Proj, lastAct', lastRes', Proj')
 TypeOK == /\ phase \in {"wallet", "setup", "run"} /\ Len(coins) <= MaxCoins /\ n <= MaxSteps
           /\ \A i \in 1..Len(coins) : coins[i].id = Id(i) /\ coins[i].type \in Types /\ coins[i].kind \in Kinds /\ coins[i].vc \in VClasses
 PresetsExist == lastAct[1] = "create" => \A i \in 1..Len(lastAct[2].preset) : lastAct[2].preset[i] \in {coins[j].id : j \in 1..Len(coins)}
-BumpTargetsExist == lastAct[1] \in {"bump"} => lastAct[2].tx \in 1..ncommit
+BumpTargetsExist == /\ (lastAct[1] = "bump" => lastAct[2].tx \in 1..ncommit)
+                    /\ (lastAct[1] \in {"respend", "childof"} => lastAct[2] \in 1..ncommit)
 ====
